@@ -136,3 +136,35 @@ def run(chk):
     from .c06 import identity_operand_rule
     chk.rule("R06.8", "(shared with C06) identity operands (Z == 0) are recognised by the internal addition and doubling used by u1*G + u2*Q")
     identity_operand_rule(chk, ModP(W.p, "PointJacobi"), "C02")
+    # a generator may be a point of either class (user-defined curves with an affine generator are
+    # part of the API): a method only PointJacobi has is called on it under a hasattr guard only
+    import ast as _ast
+    fv = W.p.func(q)
+    gnames = {n_.targets[0].id for n_ in _ast.walk(fv.node) if isinstance(n_, _ast.Assign) and isinstance(n_.targets[0], _ast.Name) and isinstance(n_.value, _ast.Attribute)
+              and n_.value.attr == "generator" and isinstance(n_.value.value, _ast.Name) and n_.value.value.id == "self"}
+    legacy = W.p.cls("ellipticcurve:Point").methods
+    par = {}
+    for n_ in _ast.walk(fv.node):
+        for c_ in _ast.iter_child_nodes(n_):
+            par[id(c_)] = n_
+    bad_calls = []
+    ncalls = 0
+    for n_ in _ast.walk(fv.node):
+        if isinstance(n_, _ast.Call) and isinstance(n_.func, _ast.Attribute) and (isinstance(n_.func.value, _ast.Name) and n_.func.value.id in gnames or
+                                                                                   (isinstance(n_.func.value, _ast.Attribute) and n_.func.value.attr == "generator")):
+            ncalls += 1
+            m_ = n_.func.attr
+            if m_ in legacy:
+                continue
+            g_ = par.get(id(n_))
+            guarded = False
+            prev = n_
+            while g_ is not None:
+                if isinstance(g_, _ast.If) and prev in g_.body and any(isinstance(x, _ast.Call) and isinstance(x.func, _ast.Name) and x.func.id == "hasattr" and len(x.args) == 2
+                                                                        and isinstance(x.args[1], _ast.Constant) and x.args[1].value == m_ for x in _ast.walk(g_.test)):
+                    guarded = True
+                prev, g_ = g_, par.get(id(g_))
+            if not guarded:
+                bad_calls.append("%s() at line %d" % (m_, n_.lineno))
+    chk.ob("R02.2", "verifies: methods that only PointJacobi provides are called on the generator under a hasattr guard [%d call(s) on the generator]" % ncalls, not bad_calls and ncalls >= 1, loc=q, key="C02|R02.2|generator-class",
+           detail="verifies calls %s on the generator without checking that it has it: AttributeError for a key on a curve with a legacy affine generator" % bad_calls)
